@@ -762,6 +762,8 @@ func runComposite(o Opts) {
 		for _, sp := range j.sc.Pool {
 			slow = slow || sp.StartMs > 0
 		}
+		// every observed trace must be a behaviour of the concurrent model CompLts (trace acceptor in the Lean driver)
+		e.Case("compaccept "+h+" "+ev, "accepted")
 		if j.sc.PreCancel {
 			// Run() with an already cancelled context: children are started, see the cancellation, and everything
 			// returns; the sequential model starts from a live context, so only the C09 statement is evaluated
